@@ -15,3 +15,31 @@ package reverseexpand
 //@     ghost firstTime = false
 //@     after call (*sync.Map).LoadOrStore args m, k, v returning a, loaded : recorded = typeIs(k, "string") && as(k, "string") == candidateObject ; firstTime = !loaded
 //@     before call concurrency.TrySendThroughChannel args _, v, ch : assert recorded && firstTime && v != nil && v.Object == candidateObject && v.ResultStatus == (intersectionOrExclusionInPreviousEdges ? reverseexpand.RequiresFurtherEvalStatus : reverseexpand.NoFurtherEvalStatus) && ch == candidateChan
+
+// ------------------------------------------------------------------ C10 / C16: every hop of the classic expansion
+// reads THIS request's store with THIS request's consistency preference, and the request handed to the next hop keeps
+// store, target, contextual tuples, context and consistency
+//@ func (*ReverseExpandQuery).readTuplesAndExecute(c, ctx, req, resultChan, intersectionOrExclusionInPreviousEdges, resolutionMetadata) (err)
+//@   property C10 C16
+//@   option nosafety
+//@   option defer_neutral
+//@   option may_panic
+//@   option stable req
+//@   monitor hopRead
+//@     before call storage.RelationshipTupleReader.ReadStartingWithUser args _, _, st, f, o : assert st == req.StoreID && o.Consistency.Preference == req.Consistency && f.ObjectType == req.edge.TargetReference.GetType()
+
+//@ func (*ReverseExpandQuery).readTuplesAndExecute$1(ctx) (err)
+//@   property C10 C16
+//@   option nosafety
+//@   monitor nextHop
+//@     before call (*reverseexpand.ReverseExpandQuery).dispatch args _, _, r : assert r != nil && r.StoreID == deref(req).StoreID && r.ObjectType == deref(req).ObjectType && r.Relation == deref(req).Relation && r.ContextualTuples == deref(req).ContextualTuples && r.Context == deref(req).Context && r.Consistency == deref(req).Consistency && r.edge == deref(req).edge
+
+// the per-edge request built by the classic expansion keeps store, target, contextual tuples, context and consistency
+//@ func (*ReverseExpandQuery).execute(c, ctx, req, resultChan, intersectionOrExclusionInPreviousEdges, resolutionMetadata) (err)
+//@   property C10 C16
+//@   option nosafety
+//@   option defer_neutral
+//@   option may_panic
+//@   monitor perEdge
+//@     before call (*pool.ContextPool).Go args _ : assert r != nil && r.StoreID == req.StoreID && r.ObjectType == req.ObjectType && r.Relation == req.Relation && r.ContextualTuples == req.ContextualTuples && r.Context == req.Context && r.Consistency == req.Consistency
+//@     before call (*reverseexpand.ReverseExpandQuery).dispatch args _, _, rr : assert rr != nil && rr.StoreID == req.StoreID && rr.ObjectType == req.ObjectType && rr.Relation == req.Relation && rr.ContextualTuples == req.ContextualTuples && rr.Context == req.Context && rr.Consistency == req.Consistency
